@@ -74,5 +74,17 @@ Definition ntp_spec_ok (c : ntp_case) : bool :=
    if (w t1 =? w ref) && (w (t1 - 2000) =? w t1) && (w (t1 + 2000) =? w t1)
    then (-1000 <=? t1 - back32) && (t1 - back32 <=? 15259 + 1000) else true).
 
-Definition ntp_spec_failures (cases : list ntp_case) : list nat :=
-  find_idx (fun c => negb (ntp_spec_ok c)) cases 0.
+(* failure codes: 9 = the instant (or its neighbour) lies in the last 383 ns before the end of
+   NTP era 0 (2036-02-07 06:28:16 UTC), where float64 seconds round up to 2^32 and the 32-bit
+   seconds field wraps (known finding); 1 = any other failure *)
+Definition ERA_END : Z := 2085978496000000000.
+
+Definition ntp_spec_failures (cases : list ntp_case) : list (nat * nat) :=
+  let fix go (l : list ntp_case) (i : nat) :=
+    match l with
+    | [] => []
+    | c :: tl =>
+        if ntp_spec_ok c then go tl (S i)
+        else let '(t1, t2, _, _, _, _, _, _) := c in
+             (i, if (ERA_END - 383 <=? t1) || (ERA_END - 383 <=? t2) then 9%nat else 1%nat) :: go tl (S i)
+    end in go cases 0%nat.
